@@ -22,7 +22,7 @@ RULE = ('batches of seeded random points per class: exact poles/equator, norther
         ' Round 3: class whole_numbers (int64 arrays, lists of ints, single int rows vs the same numbers as floats; whole-metre ECEF round trip); before every case each function is called on points of the case and the arrays it returns are overwritten by the caller.')
 ASSUMPTIONS = ['closed-form WGS-84 formulas re-typed from the standard; constants shared by value',
                'first-order claims decided by displacement ladders (1 km..1 m), residual <= K d^2 (1+tan^2 lat)/R']
-REQUIRED_OBS = ['returned_arrays_overwritten', 'integer_forms_compared', 'ecef_closed_form', 'roundtrip_ecef', 'roundtrip_lla', 'frame_partials',
+REQUIRED_OBS = ['near_pole_perturbations', 'returned_arrays_overwritten', 'integer_forms_compared', 'ecef_closed_form', 'roundtrip_ecef', 'roundtrip_lla', 'frame_partials',
                 'first_order_ladder', 'curvature_ladder', 'gravity_identities', 'parity',
                 'scalar_vs_vector', 'compiled_gravity', 'mp_points']
 REQUIRED_CLASSES = {'all': ['special', 'north', 'south', 'seam', 'high_alt', 'neg_alt', 'scalar', 'whole_numbers']}
@@ -177,6 +177,27 @@ def run_case(case):
 
     if case['cls'] == 'whole_numbers':
         return run_whole_numbers(case, lat, lon, alt, out, obs, bump, fail)
+
+    # ---- metre displacements ALONG THE MERIDIAN for points within metres of a pole, also carrying the point over it: the ECEF
+    # displacement must still be the NED frame of the starting point applied to d (to second order), whatever latitude label comes back
+    prng = np.random.Generator(np.random.PCG64(case['seed'] + 23))
+    k_ = 40
+    dist = 10 ** prng.uniform(0, 2.5, k_)                                    # 1 .. 300 m from the pole
+    sgn = prng.choice([-1.0, 1.0], k_)
+    lla_p = np.column_stack([sgn * (90.0 - np.rad2deg(dist / 6.3568e6)), prng.uniform(-180, 180, k_), prng.uniform(-500, 9000, k_)])
+    d_p = np.column_stack([sgn * dist * prng.uniform(-0.9, 3.0, k_), np.zeros(k_), prng.uniform(-5, 5, k_)])      # towards (and past) or away from the pole
+    got_v = transform.perturb_lla(lla_p, d_p)
+    for i_ in range(k_):
+        got = [got_v[i_], transform.perturb_lla(lla_p[i_], d_p[i_])][i_ % 2]
+        de = transform.lla_to_ecef(got) - transform.lla_to_ecef(lla_p[i_])
+        exp = transform.mat_en_from_ll(lla_p[i_, 0], lla_p[i_, 1]) @ d_p[i_]
+        bump('near_pole_perturbations')
+        bnd = 4 * np.linalg.norm(d_p[i_]) ** 2 / 6.3e6 + 1e-6
+        if not np.abs(de - exp).max() <= bnd:
+            fail('perturb_geometry', f'perturb_lla({lla_p[i_].tolist()}, {d_p[i_].tolist()}) ({"over" if abs(d_p[i_, 0]) > dist[i_] and np.sign(d_p[i_, 0]) == sgn[i_] else "near"} the pole, '
+                 f'{"single" if i_ % 2 else "stacked"} call) moves the point by {de.tolist()} in ECEF, the NED frame of the starting point applied to d is {exp.tolist()} '
+                 f'(mismatch {np.abs(de - exp).max():.3e} m, bound {bnd:.1e})')
+            break
 
     if case['cls'] == 'scalar':
         # scalar vs vectorised forms of every function (<= 4 ulp of the natural scale)
